@@ -121,7 +121,7 @@ def rewrites_of(c, impl_obs, rng):
                         ch = False
                         for f in stmts[0][2:]:
                             if attr_fn(fn_attrs(f), 'index') is None and rng.random() < 0.7:
-                                f2 = list(f); f2[3] = attrs(*(f[3][1:] + [a_int('index', table.index(fn_name(f)))])); fns.append(f2); ch = True
+                                ix_ = a_int('index', table.index(fn_name(f))); f2 = list(f); f2[3] = attrs(*([ix_] + f[3][1:])) if rng.random() < 0.5 else attrs(*(f[3][1:] + [ix_])); fns.append(f2); ch = True
                             else:
                                 fns.append(f)
                         if ch:
